@@ -474,6 +474,20 @@ TEXT_EDITS = [
      'silent', ['C03'], 'MPO.as_matrix: exact zeros removed from the sparse intermediate (benign)'),
     ('mpo.py', '                op = op.reshape((n**2, -1))\n', '                op = op.reshape((n**2, -1))\n                op.data[np.abs(op.data) < 1e-14] = 0\n',
      'violation', ['C03'], 'MPO.as_matrix: small entries of the sparse intermediate zeroed'),
+    ('krylov.py', '        H[j+1, j] = np.linalg.norm(w)\n        if H[j+1, j] < 100',
+     '        for k in range(j+1):\n            c = np.vdot(V[k], w)\n            H[k, j] += c\n            w -= c*V[k]\n'
+     '        H[j+1, j] = np.linalg.norm(w)\n        if H[j+1, j] < 100', 'silent', ['C14', 'C08'],
+     'arnoldi_iteration: second orthogonalisation pass that accumulates its coefficients (benign)'),
+    ('krylov.py', '        H[j+1, j] = np.linalg.norm(w)\n        if H[j+1, j] < 100',
+     '        for k in range(j+1):\n            H[k, j] = np.vdot(V[k], w)\n            w -= H[k, j]*V[k]\n'
+     '        H[j+1, j] = np.linalg.norm(w)\n        if H[j+1, j] < 100', 'violation', ['C14'],
+     'arnoldi_iteration: second orthogonalisation pass that overwrites its coefficients'),
+    ('mps.py', "        if len(self.A) == 0:\n            return 1\n\n        if mode == 'left':\n            for i in range(len(self.A) - 1):\n                self.A[i], self.A[i+1], self.qD[i+1] = local_orthonormalize_left_qr(self.A[i], self.A[i+1], self.qd, self.qD[i:i+2])",
+     "        if len(self.A) == 0:\n            return 1\n        assert mode in ('left', 'right')\n        if mode == 'left':\n            for i in range(len(self.A) - 1):\n                self.A[i], self.A[i+1], self.qD[i+1] = local_orthonormalize_left_qr(self.A[i], self.A[i+1], self.qd, self.qD[i:i+2])",
+     'silent', ['C01', 'C02'], 'MPS.orthonormalize: extra assert on the mode before the branches (benign)'),
+    ('mps.py', "        if len(self.A) == 0:\n            return 1\n\n        if mode == 'left':\n            for i in range(len(self.A) - 1):\n                self.A[i], self.A[i+1], self.qD[i+1] = local_orthonormalize_left_qr(self.A[i], self.A[i+1], self.qd, self.qD[i:i+2])",
+     "        if len(self.A) == 0:\n            return 1\n        if len(self.A) == 1 and self.A[0].size == 1:\n            return abs(self.A[0].item())\n        if mode == 'left':\n            for i in range(len(self.A) - 1):\n                self.A[i], self.A[i+1], self.qD[i+1] = local_orthonormalize_left_qr(self.A[i], self.A[i+1], self.qd, self.qD[i:i+2])",
+     'violation', ['C01'], 'MPS.orthonormalize: early return that bypasses the sweep'),
     ('mps.py', '                mask = qnumber_outer_sum([self.qd, self.qD[i], -self.qD[i+1]])', '                mask = qnumber_outer_sum([self.qd, self.qD[i], -self.qD[i]])',
      'violation', ['C02'], 'MPS.__init__: mask built from the wrong label'),
 ]
